@@ -43,15 +43,40 @@ Theorem C14_sum_perm_exact : forall e rows rows' zs,
 Proof. intros. split; [now apply sum_exact | now apply (sum_perm_exact e rows rows')]. Qed.
 Print Assumptions C14_sum_perm_exact.
 
-(** min / max over integers *)
-Theorem C14_min_max_exact : forall e rows zs,
-  numeric_args e rows = map f_of_Z zs -> Forall small zs ->
+(** min / max over integers: exact for the integer arguments ([int_args]: an integer, or text
+    holding one) of ANY size (fix b2f85e2: they no longer pass through a double), together with the
+    other numeric arguments ([float_args]) when those are integral doubles of magnitude <= 2^53 *)
+Theorem C14_min_max_exact : forall e rows zs fz,
+  int_args e rows = zs -> float_args e rows = map f_of_Z fz -> Forall small fz ->
+  acc_emit (fold_left acc_step rows (acc_empty (FMin e))) =
+    Ok (match minZ (zs ++ fz) with Some m => VInt m | None => VNone end) /\
+  acc_emit (fold_left acc_step rows (acc_empty (FMax e))) =
+    Ok (match maxZ (zs ++ fz) with Some m => VInt m | None => VNone end).
+Proof. intros; subst zs. split; [now apply min_exact | now apply max_exact]. Qed.
+Print Assumptions C14_min_max_exact.
+
+(** all arguments integers: no bound at all *)
+Theorem C14_min_max_exact_all_integers : forall e rows zs,
+  int_args e rows = zs -> float_args e rows = [] ->
   acc_emit (fold_left acc_step rows (acc_empty (FMin e))) =
     Ok (match minZ zs with Some m => VInt m | None => VNone end) /\
   acc_emit (fold_left acc_step rows (acc_empty (FMax e))) =
     Ok (match maxZ zs with Some m => VInt m | None => VNone end).
-Proof. intros. split; [now apply min_exact | now apply max_exact]. Qed.
-Print Assumptions C14_min_max_exact.
+Proof.
+  intros; subst zs. split; [now apply min_exact_all_integers | now apply max_exact_all_integers].
+Qed.
+Print Assumptions C14_min_max_exact_all_integers.
+
+(** ... and the same cells for every arrival order of the rows *)
+Theorem C14_min_max_perm_exact : forall e rows rows' zs fz,
+  Permutation rows rows' ->
+  int_args e rows = zs -> float_args e rows = map f_of_Z fz -> Forall small fz ->
+  acc_emit (fold_left acc_step rows' (acc_empty (FMin e))) =
+    Ok (match minZ (zs ++ fz) with Some m => VInt m | None => VNone end) /\
+  acc_emit (fold_left acc_step rows' (acc_empty (FMax e))) =
+    Ok (match maxZ (zs ++ fz) with Some m => VInt m | None => VNone end).
+Proof. intros; subst zs. now apply min_max_perm_exact. Qed.
+Print Assumptions C14_min_max_perm_exact.
 
 Theorem C14_min_max_order_free : forall a b, Permutation a b -> minZ a = minZ b /\ maxZ a = maxZ b.
 Proof. intros. split; [now apply minZ_perm | now apply maxZ_perm]. Qed.
@@ -102,7 +127,9 @@ Example C14_example :
   let r z := [(lit "v", VInt z)] in
   acc_emit (fold_left acc_step [r 3; r (-5); r 9] (acc_empty (FSum e))) = Ok (VInt 7) /\
   acc_emit (fold_left acc_step [r 9; r 3; r (-5)] (acc_empty (FSum e))) = Ok (VInt 7) /\
-  acc_emit (fold_left acc_step [r 9; r 3; r (-5)] (acc_empty (FMin e))) = Ok (VInt (-5)).
+  acc_emit (fold_left acc_step [r 9; r 3; r (-5)] (acc_empty (FMin e))) = Ok (VInt (-5)) /\
+  acc_emit (fold_left acc_step [r 9007199254740993; r 9007199254740992] (acc_empty (FMax e))) =
+    Ok (VInt 9007199254740993).
 Proof. vm_compute. repeat split. Qed.
 
 (** float sums: the cell is the left-to-right floating-point sum of the numeric arguments ... *)
